@@ -1,6 +1,7 @@
 (* Model of internal/cmd/tlgen/tlparser (cursor.go, parser.go, excluded.go) AFTER the C14 fixes
    (plain `//` comments and annotations without text are accepted line-wise; the empty source
-   gives the empty schema).
+   gives the empty schema; IsNext goes back exactly to where it started; the first word of a
+   definition is un-read by its rune count).
 
    Go strings are byte strings; NewCursor converts the source to []rune, so the model first
    decodes UTF-8 exactly as Go does (invalid byte -> U+FFFD, one byte consumed) and then works on
@@ -75,13 +76,6 @@ Fixpoint utf8_decode (l : list N) : list N :=
         end
       end
   end.
-
-(* len(string(r)) for a rune that came out of utf8_decode *)
-Definition utf8_len (r : N) : nat :=
-  if r <? 128 then 1%nat else if r <? 2048 then 2%nat else if r <? 65536 then 3%nat else 4%nat.
-
-Fixpoint utf8_len_str (s : str) : nat :=
-  match s with [] => 0%nat | r :: t => (utf8_len r + utf8_len_str t)%nat end.
 
 (* ------------------------------------------------------------------------------------ *)
 (* unicode.IsSpace / unicode.IsDigit (Unicode 15.0.0 tables of the Go toolchain; the check
@@ -193,18 +187,18 @@ Fixpoint read_digits_go (acc b a : list N) : cres str :=
   end.
 Definition read_digits (c : cursor) : cres str := read_digits_go [] (before c) (after c).
 
-(* IsNext(s): `for i, exp := range s` - i is the BYTE offset of exp in s *)
-Fixpoint is_next_go (s : str) (i : nat) (c : cursor) : cres bool :=
+(* IsNext(s): compares rune by rune, next() after each match (it stays on the last rune of the source);
+   on a mismatch the cursor goes back to where the comparison began [c0] *)
+Fixpoint is_next_go (s : str) (c0 c : cursor) : cres bool :=
   match s with
   | [] => COk true c
   | e :: s' =>
     match current c with
     | None => CPanic
-    | Some r => if r =? e then is_next_go s' (i + utf8_len e)%nat (fst (next c))
-                else COk false (unread i c)
+    | Some r => if r =? e then is_next_go s' c0 (fst (next c)) else COk false c0
     end
   end.
-Definition is_next (s : str) (c : cursor) : cres bool := is_next_go s 0 c.
+Definition is_next (s : str) (c : cursor) : cres bool := is_next_go s c c.
 
 (* ------------------------------------------------------------------------------------ *)
 (* schema.go (comments left out)                                                          *)
@@ -413,7 +407,7 @@ Definition parse_definition (fuel : nat) (c : cursor) : pres def :=
   cbind (read_at c_space c) (fun typ c =>
   if list_contains excluded_types typ then skip_excluded c
   else
-    let c := unread (utf8_len_str typ) c in
+    let c := unread (length typ) c in   (* Unread(utf8.RuneCountInString(typSpace)) *)
     cbind (read_at c_hash c) (fun name c =>
     if list_contains excluded_definitions name then skip_excluded c
     else
